@@ -298,6 +298,18 @@ class Resolver:
                     for cal in self.resolve_call(f, val, record=False):
                         if cal in p.functions:
                             out.setdefault(tgt, set()).add("<result-of>" + cal)
+        # plain copies `x = y` (parameters of inlined helpers are bound this way): x has y's types
+        copies = [(n.targets[0].id, n.value.id) for n in walk_own(f.node)
+                  if isinstance(n, ast.Assign) and len(n.targets) == 1 and isinstance(n.targets[0], ast.Name) and isinstance(n.value, ast.Name)]
+        for _ in range(4):
+            changed = False
+            for tgt, src in copies:
+                ts = out.get(src)
+                if ts and not ts <= out.get(tgt, set()):
+                    out.setdefault(tgt, set()).update(ts)
+                    changed = True
+            if not changed:
+                break
         return out
 
     # ------------------------------------------------------------------ calls
